@@ -2,18 +2,18 @@ SPEC = {
     "id": "C16",
     "coq_props": ["Properties/C16.v", "Corr/C16.v"],
     "module": "MS.Properties.C16",
-    "theorems": ["C16_guarded", "C16_refuted", "C16_guard_walk"],
+    "theorems": ["C16_confined"],
     "corr_require": "Require Import MS.Corr.C16.",
     "agrees": "C16.agrees",
     "in_domain": "C16.in_domain",
-    "model_prop": "fun k => implb (C16.in_domain k) (C16.model_confined k)",
+    "model_prop": "C16.model_confined",
     "n_quick": 200,
     "n_thorough": 6000,
     "shard": 40,
     "rule": "see harness/props/c16.go: 1-6 requests (create / write incl. auto-create and new-year files / destroy / query) on a fresh real "
             "instance in a sandbox, ~45% of the runs with hostile keys ('..', '.', empty, absolute-looking, extra/missing components, reserved "
             "names, odd category keys); the whole sandbox is listed after every request; 1-2 string pairs for the lexical path functions; "
-            "distinct = distinct input; non-trivial = every create/write key inside the guard and >=1 successful mutating request",
+            "distinct = distinct input; non-trivial = >=1 successful mutating request",
     "trusted_base": [
         "Coq 8.16.1 kernel + vm_compute (no native_compute); axioms: none (Closed under the global context)",
         "hand-written model coq/Base/Path.v (filepath.Join/Clean, path.Dir/Join, Base, Ext, strings.Split) and coq/Model/Catalog.v "
@@ -31,12 +31,10 @@ SPEC = {
         "error strings that contain 'file exists' / 'Can not overwrite file' by accident (a key component with that text) are not modelled",
     ],
     "level": "proof",
-    "level_text": "Coq theorem C16_guarded: for EVERY absolute root and EVERY sequence of create/write/destroy/query requests with arbitrary key strings, "
-                  "starting from an empty data root, if the item part of every create and write key never climbs above its starting directory "
-                  "(key_guard: prefix sums of '..'=-1, ''/'.'=0, other=+1 stay >= 0) then every mkdir, file creation, pwrite and RemoveAll of the run is "
-                  "lexically inside the root (proved by invariants over the file-system tree and the in-memory catalog, through the directory scan). "
-                  "C16_refuted: without the guard the statement fails (create '../1Min/OHLCV' makes directories, category files and a year file in the "
-                  "root's parent; Destroy then RemoveAll's them) - replayed on the real code on every run.",
+    "level_text": "Coq theorem C16_confined: for EVERY absolute root and EVERY sequence of create/write/destroy/query/restart requests with ARBITRARY key strings, "
+                  "starting from an empty data root, every mkdir, file creation, pwrite and RemoveAll of the run is lexically inside the root (proved by invariants over "
+                  "the file-system tree and the in-memory catalog, through the directory scan). No guard: since fix: commit AddTimeBucket rejects keys with an empty, "
+                  "'.' or '..' item before touching anything; the former witnesses are regression cases in corpus/C16.",
     "level_note": "No axioms. Trusted: Coq kernel/VM, harness, the lexical FS model. Modelled not verified: catalog/catalog.go, utils/io/keytypes.go, "
                   "frontend/write.go Create/Destroy, executor/writer.go WriteCSM (path-relevant part), path/filepath Clean/Join. "
                   "Also observed: a key with more items than categories panics (index out of range) after creating directories - inside the root.",
